@@ -2,6 +2,7 @@
 # usage: tools/try_mutant.sh <patch.diff> <PROP> [extra run.py args]
 # applies the patch to /repo, runs the check, always reverts.
 set -u
+exec 9>/tmp/try_mutant.lock; flock 9   # one mutant at a time touches /repo
 P=$1; PROP=$2; shift 2
 cd /repo || exit 3
 if ! git diff --quiet; then echo "repo dirty, refusing"; exit 3; fi
